@@ -183,6 +183,7 @@ func genC04ManyMode(r *rng, g *tgen, root *Ty, val *Val, buf []byte, paths [][]S
 			f = append(f, "n0", fx(cn.Raw()), fi(flags))
 		}
 		out.emit(402, f...)
+		out.emit(404, f...) // the same call judged by the byte-level transcription of SetMany (Check04d.v)
 		if danger {
 			out.w.Flush()
 		}
